@@ -238,6 +238,43 @@ func runC03(r *Run, p *Prog) {
 			}
 			r.Ob("P6", "PipeCon."+m.name, "pipe "+m.name+" passes the caller's slice to the "+m.field+" end and returns its result", pc.Obj().Pos(), ok, detail)
 		}
+		// the child is reaped only by the transport's Close, after both pipe ends were closed: os/exec's Wait closes the
+		// parent's pipe ends, so a Wait that can run earlier (another goroutine, another method) discards replies the
+		// client has not read yet
+		nw := 0
+		for _, f := range p.FuncsOf(pkgVarlink) {
+			for _, cs := range callsIn(f, false) {
+				name := calleeName(cs.Common)
+				if name != "exec.Cmd.Wait" && name != "os.Process.Wait" && name != "exec.Cmd.Run" && name != "exec.Cmd.Output" && name != "exec.Cmd.CombinedOutput" {
+					continue
+				}
+				nw++
+				root := f
+				for root.Parent() != nil {
+					root = root.Parent()
+				}
+				inClose := f.Parent() == nil && f.Name() == "Close" && f.Signature.Recv() != nil && types.Identical(derefT(f.Signature.Recv().Type()), pc)
+				_, isCall := cs.Instr.(*ssa.Call)
+				closed := 0
+				if inClose {
+					for _, fld := range []string{"reader", "writer"} {
+						fld := fld
+						ok, _ := everyPathPasses(f, nil, func(i ssa.Instruction) bool { return i == cs.Instr }, func(i ssa.Instruction) bool {
+							c, ok := i.(*ssa.Call)
+							return ok && c.Call.IsInvoke() && c.Call.Method.Name() == "Close" && strings.HasSuffix(strip(T.T(c.Call.Value)), "."+fld)
+						})
+						if ok {
+							closed++
+						}
+					}
+				}
+				r.Ob("P6", shortName(f), "the bridge process is waited for only in the transport's Close, after both pipe ends are closed", cs.Instr.Pos(), inClose && isCall && closed == 2,
+					fmt.Sprintf("%s is called in %s (in the transport's Close: %v, pipe ends closed before: %d of 2): exec's Wait closes the pipes once the child exits, so output the client has not read yet is lost", name, shortName(f), inClose, closed))
+			}
+		}
+		if nw == 0 {
+			r.Ob("P6", "PipeCon.Close", "the bridge process is reaped by Close", pc.Obj().Pos(), false, "no Wait on the bridge process: it is never reaped")
+		}
 		// bridge wiring
 		n := 0
 		for _, f := range p.FuncsOf(pkgVarlink) {
@@ -285,4 +322,11 @@ func pipeOrigin(T *Terms, v ssa.Value, call string, depth int) bool {
 		}
 	}
 	return false
+}
+
+func derefT(t types.Type) types.Type {
+	if pt, ok := t.(*types.Pointer); ok {
+		return pt.Elem()
+	}
+	return t
 }
